@@ -123,7 +123,11 @@ impl EventLoop {
     pub fn clean(&mut self) {
         self.network = None;
         self.keepalive_timeout = None;
-        self.pending.extend(self.state.clean());
+        // What the state machine hands back was sent before anything that is still waiting
+        // in `pending` (a failure in the middle of a replay): it goes in front
+        let mut carried_over: VecDeque<Request> = self.state.clean().into();
+        carried_over.append(&mut self.pending);
+        self.pending = carried_over;
 
         // drain requests from channel which weren't yet received
         let mut requests_in_channel: Vec<_> = self.requests_rx.drain().collect();
